@@ -413,3 +413,67 @@ def replay(spec, hist, monitors=None, upto=None):
         for m in mons:
             viols += m.after(w, obs) or []
     return w, viols
+
+
+# ---------------------------------------------------------------------------- ill-formed calls (C07)
+def bad_calls(w):
+    """menu of ill-formed calls available in this state: (name, thunk).  Each thunk performs the call on the
+    real object and returns (exception or None, return value)."""
+    env = w.env
+    out = []
+    A = w.actors
+
+    def other(a):
+        return A[(a + 1) % len(A)]
+
+    def mk(name, actor, fn):
+        def thunk():
+            try:
+                with call_as(env, actor):
+                    r = fn()
+                return None, r
+            except BaseException as e:  # noqa
+                return e, None
+        out.append((name, thunk))
+
+    junk = lambda: HItem(10 ** 6, "red", w.spec.get("ilen", 1))
+    obj = w.obj
+    # no reservation at all / a token the store has never seen
+    mk("put(None)", A[0], lambda: obj.put(None, junk()))
+    mk("get(None)", A[0], lambda: obj.get(None))
+    mk("put(foreign event)", A[0], lambda: obj.put(env.event(), junk()))
+    mk("get(foreign event)", A[0], lambda: obj.get(env.event()))
+    mk("cancel_put(foreign event)", A[0], lambda: obj.reserve_put_cancel(env.event()))
+    mk("cancel_get(foreign event)", A[0], lambda: obj.reserve_get_cancel(env.event()))
+    last = {}
+    for t in w.toks:
+        last[(t.side, t.status)] = t
+    for (side, status), t in sorted(last.items(), key=lambda kv: (kv[0][0], kv[0][1])):
+        own = A[t.actor]
+        if side == "p":
+            if status == GRANTED and len(A) > 1:
+                mk("put(other's granted token)", other(t.actor), lambda t=t: obj.put(t.ev, junk()))
+            if status == GRANTED:
+                mk("get(space token)", own, lambda t=t: obj.get(t.ev))
+            if status == PENDING:
+                mk("put(pending token)", own, lambda t=t: obj.put(t.ev, junk()))
+            if status == USED:
+                mk("put(used token)", own, lambda t=t: obj.put(t.ev, junk()))
+                mk("cancel_put(used token)", own, lambda t=t: obj.reserve_put_cancel(t.ev))
+            if status == CANC:
+                mk("put(cancelled token)", own, lambda t=t: obj.put(t.ev, junk()))
+                mk("cancel_put(cancelled token)", own, lambda t=t: obj.reserve_put_cancel(t.ev))
+        else:
+            if status == GRANTED and len(A) > 1:
+                mk("get(other's granted token)", other(t.actor), lambda t=t: obj.get(t.ev))
+            if status == GRANTED:
+                mk("put(retrieval token)", own, lambda t=t: obj.put(t.ev, junk()))
+            if status == PENDING:
+                mk("get(pending token)", own, lambda t=t: obj.get(t.ev))
+            if status == USED:
+                mk("get(used token)", own, lambda t=t: obj.get(t.ev))
+                mk("cancel_get(used token)", own, lambda t=t: obj.reserve_get_cancel(t.ev))
+            if status == CANC:
+                mk("get(cancelled token)", own, lambda t=t: obj.get(t.ev))
+                mk("cancel_get(cancelled token)", own, lambda t=t: obj.reserve_get_cancel(t.ev))
+    return out
